@@ -13,7 +13,7 @@ func init() {
 		Explanation: "Decides the client's endpoint-selection guards and the termination mechanics of its calls: (R1) every endpoint NextReadEndpoint returns is under a !IsDead() test on that same endpoint, list elements are returned only when they are secondaries or under the Any preference, the primary never under Secondary/Any; Primary() reports a dead primary; " +
 			"(R2) every round-robin scan has a counter that grows on each iteration and is compared with the number of endpoints in its exit test; (R3) Add and AddBulk go through callPrimary only, whose request goes to topology.Primary(); (R4) every loop of callPrimary, callAny, discover and the retrier has a progress statement on each way around it: a one-shot flag set and tested, the selected endpoint marked dead, or a bounded counter; " +
 			"(R5) discovery and the redirect hook update the topology with the leader's shard as primary; (R6) topology and endpoint state is accessed only under their locks, url/nodeType are immutable after construction.",
-		Added:       "Also (R5) discovery selects its node with preference Any and a primary confirmed by a server answer is installed as a fresh endpoint on every path.",
+		Added:       "Also (R5) discovery selects its node with preference Any and a primary confirmed by a server answer is installed as a fresh endpoint on every path. Third round: (R5) Update builds a fresh endpoint list; (R6) MarkAsDead marks on every path; (R4) the retrier's attempts are bounded.",
 		Assumptions: []string{"http.Client honours its timeout"},
 		Declined:    "convergence after a leader change and fairness of the rotation as statements over histories.",
 	}, runC20)
@@ -100,7 +100,88 @@ func loopProgress(p *Program, fn *ssa.Function, e backEdge, shrink func(ssa.Inst
 			}
 		}
 	}
-	// one-shot flags kept in memory cells are lifted to phis by go/ssa unless captured; nothing to do here.
+	// K1' one-shot flag kept in a memory cell (a field of a local struct, a captured local): on every way to
+	// this back edge the cell is set to true, the edge is taken only if the cell read false before that, and
+	// nothing in the loop resets it — the edge is taken at most once.
+	cellOf := func(addr ssa.Value) (ssa.Value, int) {
+		switch a := addr.(type) {
+		case *ssa.FieldAddr:
+			if al, ok := a.X.(*ssa.Alloc); ok {
+				return al, a.Field
+			}
+		case *ssa.Alloc:
+			return a, -1
+		}
+		return nil, 0
+	}
+	for _, b := range fn.Blocks {
+		if !inLoop(e, b) {
+			continue
+		}
+		for _, in := range b.Instrs {
+			st, ok := in.(*ssa.Store)
+			if !ok {
+				continue
+			}
+			k, isC := st.Val.(*ssa.Const)
+			if !isC || k.Value == nil || k.Value.String() != "true" {
+				continue
+			}
+			cell, fld := cellOf(st.Addr)
+			if cell == nil {
+				continue
+			}
+			// monotone: no other store into the cell inside the loop writes anything but true
+			mono := true
+			for _, b2 := range fn.Blocks {
+				if !inLoop(e, b2) {
+					continue
+				}
+				for _, in2 := range b2.Instrs {
+					if st2, ok := in2.(*ssa.Store); ok && st2 != st {
+						c2, f2 := cellOf(st2.Addr)
+						if c2 == cell && (f2 == fld || f2 == -1 || fld == -1) {
+							if k2, isC2 := st2.Val.(*ssa.Const); !(isC2 && k2.Value != nil && k2.Value.String() == "true") {
+								mono = false
+							}
+						}
+					}
+				}
+			}
+			if !mono {
+				continue
+			}
+			// every way from the header to this back edge passes the store
+			last := e.src.Instrs[len(e.src.Instrs)-1]
+			if reachesWithout(e.hdr.Instrs[0], func(x ssa.Instruction) bool { return x == last }, func(x ssa.Instruction) bool { return x == ssa.Instruction(st) }, nil) {
+				continue
+			}
+			// the edge requires that the cell read false
+			cs := p.CondsAt(e.src)
+			readFalse := hasCond(cs, func(c Cond) bool {
+				v, pol := c.V, c.Branch
+				for {
+					u, ok := v.(*ssa.UnOp)
+					if !ok || u.Op != token.NOT {
+						break
+					}
+					v, pol = u.X, !pol
+				}
+				if pol {
+					return false
+				}
+				if u, ok := v.(*ssa.UnOp); ok && u.Op == token.MUL {
+					if c3, f3 := cellOf(u.X); c3 == cell && f3 == fld && inLoop(e, u.Block()) {
+						return true
+					}
+				}
+				return false
+			})
+			if readFalse {
+				return "one-shot flag (memory cell)"
+			}
+		}
+	}
 	// K2 shrink: every way from the header to this back edge passes a shrinking call
 	if shrink != nil {
 		first := e.hdr.Instrs[0]
